@@ -373,9 +373,9 @@ impl<Octs: Octets> Parameter<Octs> {
 
 impl<Octs: Octets> Capability<Octs> {
     fn check(parser: &mut Parser<Octs>) -> Result<(), ParseError> {
-        let _typ = parser.parse_u8()?;
-        let len = parser.parse_u8()? as usize;
-        parser.advance(len)?;
+        // The capabilities() iterator unwraps Capability::parse on the very
+        // same (parameter-limited) parser, so the same rules apply here.
+        Capability::<Octs::Range<'_>>::parse(parser)?;
         Ok(())
     }
 }
@@ -394,6 +394,11 @@ impl<Octs: Octets> Capability<Octs> {
                 warn!("Capability type Reserved");
             },
             CapabilityType::MultiProtocol => {
+                if len != 4 {
+                    return Err(ParseError::form_error(
+                            "MultiProtocol Capability with length != 4"
+                    ));
+                }
                 let _afi = parser.parse_u16_be()?;
                 let _rsvd = parser.parse_u8()?;
                 let _safi = parser.parse_u8()?;
@@ -455,6 +460,11 @@ impl<Octs: Octets> Capability<Octs> {
                 }
             },
             CapabilityType::FourOctetAsn => {
+                if len != 4 {
+                    return Err(ParseError::form_error(
+                            "FourOctetAsn Capability with length != 4"
+                    ));
+                }
                 let _asn = parser.parse_u32_be()?;
             },
             CapabilityType::DeprecatedDynamicCapability 
@@ -464,6 +474,11 @@ impl<Octs: Octets> Capability<Octs> {
                 }
             },
             CapabilityType::Multisession => {
+                if len == 0 {
+                    return Err(ParseError::form_error(
+                            "Multisession Capability with length 0"
+                    ));
+                }
                 let _flags = parser.parse_u8()?;
                 for _ in 0..len-1 {
                     let _session_id = parser.parse_u8()?;
@@ -537,6 +552,11 @@ impl<Octs: Octets> Capability<Octs> {
                 }
             },
             CapabilityType::PrestandardMultisession => {
+                if len == 0 {
+                    return Err(ParseError::form_error(
+                            "Multisession Capability with length 0"
+                    ));
+                }
                 let _flags = parser.parse_u8()?;
                 for _ in 0..len-1 {
                     let _session_id = parser.parse_u8()?;
